@@ -13,6 +13,7 @@ CONSTANTS
   ClosureSel = {TRUE}
   FeatOptSel = {"all"}
   K = 3
+  K3 = {"none"}
 INIT Init
 NEXT Next
 INVARIANT Monotone
